@@ -720,6 +720,26 @@ impl Walrus {
                 continue;
             }
 
+            // Rolled-back (zeroed) space at the read position: nothing readable is left in this
+            // block. Skip it without spending byte budget on it, otherwise a small budget is used
+            // up by dead space and the read returns nothing although later blocks hold entries.
+            {
+                let mut len_probe = [0u8; 2];
+                block
+                    .mmap
+                    .read((block.offset + cur_off) as usize, &mut len_probe);
+                let probe_len = (len_probe[0] as usize) | ((len_probe[1] as usize) << 8);
+                if probe_len == 0 || probe_len > PREFIX_META_SIZE - 2 {
+                    if info_guard.is_some() {
+                        BlockStateTracker::set_checkpointed_true(block.id as usize);
+                    }
+                    cur_idx += 1;
+                    cur_off = 0;
+                    first_end_hint = 0;
+                    continue;
+                }
+            }
+
             let mut want = (max_bytes - planned_bytes) as u64;
 
             if planned_bytes == 0 {
